@@ -484,7 +484,7 @@ theorem result_not_excluded {E : Env} {k : Kind} {cfg : Cfg} {name : List Char}
   intro hin
   apply hnotin
   unfold effExcl; split
-  · exact List.mem_cons_of_mem _ hin
+  · exact List.mem_append_right _ hin
   · exact hin
 
 
